@@ -4,6 +4,8 @@ use vkit::report::{Args, Report};
 mod c02;
 mod c03;
 mod c06;
+mod c07;
+mod c08;
 mod c09;
 mod c10;
 mod c13;
@@ -23,6 +25,8 @@ fn main() {
         "c02" => c02::run(&args, &mut rep),
         "c03" => c03::run(&args, &mut rep),
         "c06" => c06::run(&args, &mut rep),
+        "c07" => c07::run(&args, &mut rep),
+        "c08" => c08::run(&args, &mut rep),
         "c09" => c09::run(&args, &mut rep),
         other => {
             eprintln!("unknown property {other}");
